@@ -48,3 +48,30 @@ Definition nasrt_lossless (c:nas_message * obytes * odec) : bool :=
   match enc, dec with
   | OB b, OD m' (OB b') => eqb_nas x m' && eqb_bytes b b'
   | _, _ => false end.
+
+(* ---------------------------------------------------------------- the dispatch tables of nas.go *)
+Definition entry_ok (h:dispatch) (e:N * (string * string)) : bool :=
+  let '(mt, (sname, dfn)) := e in
+  match find_desc d_dec_func dfn all_msg_descs, lookupN mt (h_encode h) with
+  | Some d, Some efn =>
+      String.eqb sname (d_name d) && desc_pair_ok d &&
+      match find_desc d_enc_func efn all_msg_descs with Some d2 => String.eqb (d_name d2) (d_name d) | None => false end
+  | _, _ => false end.
+(* decode and encode switches know the same message types, each handled by one Encode*/Decode* pair of one struct
+   that desc_pair_ok accepts *)
+Definition dispatch_ok (h:dispatch) : bool :=
+  is_nil (h_odd h) && forallb (entry_ok h) (h_decode h) &&
+  nodup_N (map fst (h_decode h)) && nodup_N (map fst (h_encode h)) &&
+  Nat.eqb (List.length (h_encode h)) (List.length (h_decode h)) &&
+  Nat.ltb (h_type_index h) (h_header_len h).
+Definition library_ok : bool :=
+  is_nil (p_odd plain_dispatch) && nodup_str (map d_name all_msg_descs) &&
+  dispatch_ok gmm_dispatch && dispatch_ok gsm_dispatch &&
+  eqb_list String.eqb (map snd (p_epd_decode plain_dispatch)) ["Gmm"%string; "Gsm"%string] &&
+  eqb_list String.eqb (p_encode_order plain_dispatch) ["Gmm"%string; "Gsm"%string] &&
+  nodup_N (map fst (p_epd_decode plain_dispatch)).
+
+(* the descriptors PlainNasEncode/PlainNasDecode can reach *)
+Definition dispatched_descs : list msg_desc :=
+  flat_map (fun h => flat_map (fun e => match find_desc d_dec_func (snd (snd e)) all_msg_descs with Some d => [d] | None => [] end)
+                              (h_decode h)) [gmm_dispatch; gsm_dispatch].
